@@ -395,7 +395,41 @@ func genBdb(r *hx.Rand, headers [][]byte) []byte {
 	if r.Chance(1, 5) {
 		ord = binary.BigEndian
 	}
-	return buildBdb(ord, pageSz, headers, r.Chance(1, 3))
+	b := buildBdb(ord, pageSz, headers, r.Chance(1, 3))
+	if r.Chance(1, 3) {
+		bdbInlineItems(r, ord, pageSz, b)
+	}
+	return b
+}
+
+// bdbInlineItems rewrites one or two off-page items of the first hash page as
+// items stored in the page itself (type H_KEYDATA, as libdb keeps values of at
+// most a quarter page): the value lies between the item's type byte and the
+// offset of its key. The bytes come from the free middle of the page.
+func bdbInlineItems(r *hx.Rand, ord binary.ByteOrder, pageSz int, b []byte) {
+	if len(b) < 2*pageSz {
+		return
+	}
+	p := b[pageSz : 2*pageSz]
+	ne := int(ord.Uint16(p[20:])) / 2
+	lo := 26 + 4*ne + 8 // first free byte after the index (and some slack)
+	for k, n := 0, 1+r.Intn(2); k < n && ne > 0; k++ {
+		i := r.Intn(ne)
+		sz := []int{0, 5, 15, 16, 17, 40, 100}[r.Intn(7)]
+		d := lo + r.Intn(8)
+		key := d + 1 + sz
+		if key+5 >= int(ord.Uint16(p[22:])) || key+5 > pageSz {
+			continue
+		}
+		p[d] = 1
+		for j := 0; j < sz; j++ {
+			p[d+1+j] = byte(0x40 + j)
+		}
+		p[key] = 1
+		ord.PutUint16(p[26+4*i:], uint16(key))
+		ord.PutUint16(p[26+4*i+2:], uint16(d))
+		lo = key + 5
+	}
 }
 
 func buildBdb(ord binary.ByteOrder, pageSz int, headers [][]byte, interleave bool) []byte {
